@@ -460,6 +460,7 @@ namespace
             int64_t nsel = r.chance(1, 12) ? 5 : (int64_t)r.below(5);
             p.cfg = {(int64_t)r.below(4), (int64_t)r.below(2), nsel};
             int n = (int)r.range(3, tier == THOROUGH ? 80 : 36);
+            if (r.chance(1, 40)) n *= 25; // a long history: what only accumulates over hundreds or thousands of operations
             if (nsel == 5) n = (int)r.range(3, 14); // the big capacity is expensive to compare after every step
             for (int i = 0; i < n; i++)
             {
@@ -700,6 +701,7 @@ namespace
             Plan p;
             p.cfg = {(int64_t)r.below(4), (int64_t)r.below(2), (int64_t)r.below(4)};
             int n = (int)r.range(3, tier == THOROUGH ? 60 : 30);
+            if (r.chance(1, 40)) n *= 25; // a long history: what only accumulates over hundreds or thousands of operations
             for (int i = 0; i < n; i++) p.ops.push_back({(int64_t)r.below(T_N), 0, (int64_t)r.below(40), 0, (int64_t)r.below(1000)});
             return p;
         }
